@@ -119,6 +119,29 @@ func vGenScenario(t *rapid.T, o vScenOpts) vScenario {
 	return s
 }
 
+// Rename replaces a name everywhere it occurs (headings, entries, name lists).
+func (s *vScenario) Rename(old, new string) {
+	for _, d := range []*vDoc{&s.Book, &s.Log} {
+		for ri := range d.Recs {
+			if d.Recs[ri].Head == old {
+				d.Recs[ri].Head = new
+			}
+			for li := range d.Recs[ri].Lines {
+				if d.Recs[ri].Lines[li].Kind == vkEntry && d.Recs[ri].Lines[li].Name == old {
+					d.Recs[ri].Lines[li].Name = new
+				}
+			}
+		}
+	}
+	for _, l := range []*[]string{&s.Recipes, &s.Basics, &s.Unknown} {
+		for i := range *l {
+			if (*l)[i] == old {
+				(*l)[i] = new
+			}
+		}
+	}
+}
+
 type vScenFiles struct{ Book, Log string }
 
 func (s vScenario) Write(prefix string) vScenFiles {
